@@ -1938,9 +1938,9 @@ def remove_dead_ifs(source: str) -> str:
     for node in core.walk(root, (ast.ListComp, ast.SetComp, ast.GeneratorExp, ast.DictComp)):
         generators = []
         any_comprehension_modified = False
+        any_if_always_false = False
         for comprehension in node.generators:
             ifs = []
-            any_if_always_false = False
             for if_ in comprehension.ifs:
                 try:
                     value = core.literal_value(if_)
@@ -1957,8 +1957,7 @@ def remove_dead_ifs(source: str) -> str:
                 # We skip adding it to ifs, so that will be the result.
 
             if any_if_always_false:
-                any_comprehension_modified = True
-                continue
+                break
 
             if len(ifs) < len(comprehension.ifs):
                 replacement = ast.comprehension(
@@ -1972,34 +1971,36 @@ def remove_dead_ifs(source: str) -> str:
             else:
                 generators.append(comprehension)
 
-        if not any_comprehension_modified:
+        if any_if_always_false:
+            # Nothing is ever produced, but the iterables are still evaluated, so the comprehension
+            # can only be replaced with an empty container if that evaluation has no side effect.
+            if any(
+                core.has_side_effect(comprehension.iter, constants.SAFE_CALLABLES)
+                for comprehension in node.generators
+            ):
+                continue
+
+            if isinstance(node, ast.ListComp):
+                yield (node, ast.List(elts=[]))
+
+            elif isinstance(node, ast.SetComp):
+                yield (node, ast.Call(func=ast.Name(id="set"), args=[], keywords=[]))
+
+            elif isinstance(node, ast.DictComp):
+                yield (node, ast.Dict(keys=[], values=[]))
+
+            else:
+                # Although an empty generator would be more correctly replaced with iter([]) or
+                # some similar construct, I think that will just confuse people, so we replace
+                # it with a tuple instead, which is semantically equivalent and more readable.
+                # The parentheses around a generator expression belong to it, also when they
+                # are those of a call that it is the only argument of, as in sum(x for x in y).
+                yield (node, "(())")
+
             continue
 
-        if generators:
+        if any_comprehension_modified:
             yield (node, type(node)(**{**node.__dict__, "generators": generators}))
-            continue
-
-        # If all generators are dead, replace the comprehension with an empty container
-        # of the same type.
-
-        if isinstance(node, ast.ListComp):
-            yield (node, ast.List(elts=[]))
-            continue
-
-        if isinstance(node, ast.SetComp):
-            yield (node, ast.Call(func=ast.Name(id="set"), args=[], keywords=[]))
-            continue
-
-        # Although an empty generator would be more correctly replaced with iter([]) or
-        # some similar construct, I think that will just confuse people, so we replace
-        # it with a tuple instead, which is semantically equivalent and more readable.
-        if isinstance(node, ast.GeneratorExp):
-            yield (node, ast.Tuple(elts=[]))
-            continue
-
-        if isinstance(node, ast.DictComp):
-            yield (node, ast.Dict(keys=[], values=[]))
-            continue
 
 
 @processing.fix
